@@ -236,7 +236,7 @@ def oracle_history(case, rec):
         queries.append(nxt)
         cur = nxt
     for step, q in enumerate(queries):
-        red = np.array(q, dtype=int)
+        red = lib.idx_of(q)              # one array object per length, edited in place between queries
         if fn == 'cost':
             shared = rec.call(8, ev.compute_global_cost, p, red, M, cache, _site='evaluation.compute_global_cost')
             fresh = rec.call(8, ev.compute_global_cost, p, red, M, {}, _site='evaluation.compute_global_cost')
